@@ -69,6 +69,18 @@ fn next_float_down(v: Float) -> Float {
     Float::from_bits(ui)
 }
 
+/// Verification hook: exposes the private `next_float_up`
+#[cfg(geometry3d_verif)]
+pub fn verif_next_float_up(v: Float) -> Float {
+    next_float_up(v)
+}
+
+/// Verification hook: exposes the private `next_float_down`
+#[cfg(geometry3d_verif)]
+pub fn verif_next_float_down(v: Float) -> Float {
+    next_float_down(v)
+}
+
 /// Contains a `Float` value as well as an error
 /// interval.
 #[derive(Clone, Copy, Debug)]
